@@ -34,6 +34,8 @@ def _variants(m, plugins, hard_wrap, escape):
 
     def mk(kind):
         ps = [real(x) for x in plugins] + (["speedup"] if kind != "without" else [])
+        if kind == "with-first":
+            ps = ["speedup"] + [real(x) for x in plugins]
         md = m.create_markdown(plugins=ps, hard_wrap=hard_wrap, escape=escape)
         if kind == "inline-only":
             md.block.rules.remove("paragraph")
@@ -78,6 +80,29 @@ def classify_case(m, c):
     return None
 
 
+def _first_differs(m, mk, c, d, wa, fails):
+    """speedup listed FIRST: the other plugins register their rules after it"""
+    try:
+        wf = mk("with-first")(d)
+    except Exception as e:  # noqa
+        wf = "EXC:%s" % type(e).__name__
+    if wf == wa:
+        return False
+    f = dict(c, kind="speedup-listed-first-changes-output", expected=wa[:1200], got=wf[:1200])
+    # mechanism of the known finding: url_link and inline_spoiler are appended to the inline rules, i.e. behind speedup's catch-all text
+    # rule when speedup is listed before them, and never fire; nothing else may depend on the position of speedup
+    late = [x for x in c["plugins"] if x in ("url", "spoiler")]
+    if late:
+        mk2 = _variants(m, [x for x in c["plugins"] if x not in late], c["hard_wrap"], c["escape"])
+        try:
+            if mk2("without")(d) == mk2("with-first")(d):
+                f["class"] = "speedup-listed-before-url-or-spoiler"
+        except Exception:  # noqa
+            pass
+    fails.append(f)
+    return True
+
+
 def check_one(m, c, fails, shrink=True, shortcut=False):
     mk = _variants(m, c["plugins"], c["hard_wrap"], c["escape"])
     a, b = mk("without"), mk("with")
@@ -103,6 +128,8 @@ def check_one(m, c, fails, shrink=True, shortcut=False):
         f = dict(c, kind="speedup-changes-output", expected=wa[:1200], got=wb[:1200])
         f["class"] = classify_case(m, c)
         fails.append(f)
+    elif c["plugins"] and len(d) % 3 == 0 and _first_differs(m, mk, c, d, wa, fails):
+        pass
     elif not c["hard_wrap"] and all(isinstance(x, str) and ":" not in x for x in c["plugins"]) and (shortcut or len(d) % 4 == 0):
         # the same through the shortcut mistune.markdown() and its cache of converters (plugins in the caller's order)
         try:
@@ -171,7 +198,7 @@ def oracle(ctx, extra):
             "known_by_class": {k: sum(1 for f in known if f["class"] == k) for k in {f["class"] for f in known}},
             "rule": "documents: 50% generated with all plugin syntaxes, 10% interrupt/lazy fragments, 10% wrapped paragraphs (continuation lines indented by 0-5 spaces or tabs, inline constructs straddling the line break), tab-indented containers and constructs whose repeatable part is repeated 9-129 times, 15% strings dense in stop "
                     "characters / white space / hard and soft breaks / URLs / entities, 15% noise; every 8th a showcase of one plugin's constructs with that plugin enabled (abbreviations with multi-word, prefix and stop-character keys, uses wrapped over two lines), every 8th a table-of-contents directive over headings of every form (also setext headings that span two lines); configurations: core (25%), "
-                    "mistune.html's own set (15%), 1-8 random plugins (a quarter of the agreeing cases repeated through the shortcut mistune.markdown()); hard_wrap 35%, escape=False 25%; HTML compared with "
+                    "mistune.html's own set (15%), 1-8 random plugins (a quarter of the agreeing cases repeated through the shortcut mistune.markdown(), a third with speedup listed first instead of last); hard_wrap 35%, escape=False 25%; HTML compared with "
                     "plugins=P vs P+['speedup']; a difference is shrunk by delta debugging and classified by re-running with "
                     "only the block half / only the inline half of speedup",
             "samples": [json.dumps(gen_docs.interaction_doc(ctx.rng('s')))]}
@@ -182,6 +209,9 @@ def check_known(ctx, k):
     cfg = k.get("config", {})
     c = {"input": k["input"], "plugins": cfg.get("plugins", []), "hard_wrap": cfg.get("hard_wrap", False), "escape": cfg.get("escape", True)}
     fails = []
+    if cfg.get("first"):
+        mk = _variants(ctx.mistune, c["plugins"], c["hard_wrap"], c["escape"])
+        return _first_differs(ctx.mistune, mk, c, c["input"], mk("without")(c["input"]), fails)
     check_one(ctx.mistune, c, fails, shrink=False)
     return bool(fails)
 
